@@ -124,12 +124,14 @@ def parse_obs(text):
     """-> dict(kind=none|node|path|nodes|edges|loop|panic|other, ..., trace=[...]|None)"""
     parts = text.split(" | ")
     head = parts[0]
-    r = dict(kind="other", raw=text, trace=None, log=None)
+    r = dict(kind="other", raw=text, trace=None, log=None, xlog=None)
     for p in parts[1:]:
         if p.startswith("tr"):
             r["trace"] = [(int(a), int(b), int(c)) for a, b, c in EDGE.findall(p)]
         elif p.startswith("log"):
             r["log"] = p.split()[1:]
+        elif p.startswith("xlog"):
+            r["xlog"] = p.split()[1:]
     if head.startswith("panic"):
         r["kind"] = "panic"
     elif head == "r none":
